@@ -165,6 +165,20 @@ static int cmp_key(const void *a, const void *b, void *p)
     return sim_cmp((x->key > y->key) - (x->key < y->key));
 }
 
+/* find by bare key: the sought object is an int, not an element (the usual way to avoid building a dummy element).
+ * Every find in the library hands the comparison function (sought object, element), and such callers rely on it. */
+static int cmp_find_barekey(const void *a, const void *b, void *p)
+{
+    const struct lelem *y = b; int k;
+    if (a != p) {
+        CB_ENTER();
+        sim_violation("C12/find_argument_order/d_find/bare-key", b == p ? "find handed the comparison function (element, sought object); every find in the library passes (sought object, element) and callers searching by a bare key rely on it"
+                                                                        : "find handed the comparison function a first argument that is not the sought object");
+    }
+    k = *(const int *)a;
+    return sim_cmp((k > y->key) - (k < y->key));
+}
+
 static int cmp_key_mod(const void *a, const void *b, void *p)
 {
     const struct lelem *x = a, *y = b;
@@ -659,6 +673,12 @@ static void l_exec(const plan_t *p)
             static struct lelem probe;
             int dir = (int)(o->a[2] & 1), want = -1;
             probe.key = key; probe.magic = MAGIC;
+            if (o->a[2] & 2) {
+                static int barekey;
+                barekey = key; PROBE("d_find_by_bare_key");
+                TRY(ret = cstl_dlist_find(D, &barekey, cmp_find_barekey, &barekey,
+                                          dir ? CSTL_DLIST_FOREACH_DIR_REV : CSTL_DLIST_FOREACH_DIR_FWD));
+            } else
             TRY(ret = cstl_dlist_find(D, &probe, cmp_key, NULL,
                                       dir ? CSTL_DLIST_FOREACH_DIR_REV : CSTL_DLIST_FOREACH_DIR_FWD));
             check_noabort(m, 1);
